@@ -19,7 +19,8 @@ RULE = (
     "the original field by field (lists/tuples by content, nested problem configuration included, overridden fields "
     "excepted); every runtime field (values, iteration, stored policy, gain, value history and index, period) equals "
     "the snapshot of that step bit for bit; latest = largest committed step; overrides are reflected in the solver's "
-    "attributes; later saves land in the new directory and the original directory is byte-identical (content hash of "
+    "attributes AND in the steps actually on disk after a further solve() (cadence = the frequency in effect, retention = "
+    "the max_checkpoints in effect, judged against the saved-set model of C12); later saves land in the new directory and the original directory is byte-identical (content hash of "
     "every file) after the restore. In a third of the cases the directory is first MOVED, or COPIED and the copy made older than "
     "the original ('from the directory alone'). A fifth of the cases exercise the error paths: no config.yaml -> "
     "FileNotFoundError; no completed step -> ValueError 'No checkpoints found', for both routes. Non-trivial = "
@@ -35,7 +36,7 @@ F8 = "F8-restore-drops-stored-policy"
 
 def plan(tier):
     if tier == "quick":
-        return dict(shards=16, examples=64, time_budget_s=800, min_nontrivial=10, shrink_cap_s=120)
+        return dict(shards=16, examples=128, time_budget_s=800, min_nontrivial=20, shrink_cap_s=120)
     return dict(shards=16, examples=960, time_budget_s=3400, min_nontrivial=120)
 
 
@@ -47,12 +48,13 @@ def strategy(tier, shard):
         problem = draw(ckpt.problem_descs(rot=shard))
         solver = draw(ckpt.solver_descs(rot=shard))
         route = "load" if problem["kind"] == "tabular" else draw(st.sampled_from(["restore", "restore", "load"]))
-        ov = dict(new_dir=draw(st.booleans()), frequency=draw(st.sampled_from([None, None, 1, 2, 0])),
-                  keep=draw(st.sampled_from([None, None, 1, 4])), async_=draw(st.sampled_from([None, True, False])))
+        ov = dict(new_dir=draw(st.booleans()), frequency=draw(st.sampled_from([None, 1, 2, 3, 0])),
+                  keep=draw(st.sampled_from([None, 1, 2, 4])), async_=draw(st.sampled_from([None, True, False])))
         return dict(problem=problem, solver=solver, freq=draw(st.integers(1, 3)), keep=draw(st.integers(1, 3)),
-                    async_=draw(st.booleans()), calls=[draw(st.integers(1, 7))] + ([draw(st.integers(1, 5))] if draw(st.booleans()) else []),
+                    async_=draw(st.booleans()), # (first calls of 9..11 sweeps put retained steps on both sides of 10: "latest" must be numeric, not lexicographic)
+                    calls=[draw(st.sampled_from([1, 2, 3, 4, 5, 6, 7, 9, 10, 11]))] + ([draw(st.integers(1, 5))] if draw(st.booleans()) else []),
                     step_choice=draw(st.sampled_from(["latest", "latest", 0, 1, 2])), route=route, overrides=ov,
-                    later=draw(st.sampled_from([0, 0, 2, 3])),
+                    later=draw(st.sampled_from([0, 3, 4, 6])),
                     errpath=draw(st.sampled_from([None, None, None, None, "no_config", "no_steps"])),
                     # the directory may have been copied (and the original has moved on) or moved before it is restored
                     relocate=draw(st.sampled_from([None, None, None, "move", "copy-diverged"])))
@@ -213,11 +215,33 @@ def judge(case):
             if not stepsB or min(stepsB) <= expect_step:
                 return verdict_fail("later-saves-not-in-new-directory", f"new directory holds {stepsB} after solving from step {expect_step}", classes=classes)
             classes.append("later-saves-in-new-dir")
+        if later and exp_attrs["checkpoint_frequency"] > 0 and r2.get("calls"):
+            # "overrides ... take effect for later saves": the steps actually on disk after the further solve() must follow
+            # the frequency and retention IN EFFECT (overridden or original), not merely be reflected in the attributes
+            end = int(r2["calls"][-1]["iteration"])
+            f_eff, m_eff = int(exp_attrs["checkpoint_frequency"]), int(exp_attrs["max_checkpoints"])
+            new_saved = {n for n in range(expect_step + 1, end + 1) if n % f_eff == 0} | {end}
+            tgt = dirB if ov["new_dir"] else dirA
+            pool = new_saved if ov["new_dir"] else (set(steps) | new_saved)
+            expect_steps = sorted(pool)[-m_eff:]
+            got_steps, tmp_left = ckpt.steps_in(tgt)
+            if got_steps != expect_steps or tmp_left:
+                return verdict_fail("override-not-applied:later-saves-cadence-or-retention",
+                                    f"{kind}/{problem['kind']} {route} from step {expect_step} (steps on disk {steps}) with frequency {f_eff}, "
+                                    f"max_checkpoints {m_eff} in effect, solve({later}) ended at {end}: {'new' if ov['new_dir'] else 'same'} directory holds "
+                                    f"{got_steps} {tmp_left}, expected {expect_steps}", classes=classes)
+            classes.append("later-saves-follow-effective-settings")
+            if ov["frequency"] not in (None, case["freq"]) or ov["keep"] not in (None, case["keep"]):
+                classes.append("later-saves-under-changed-frequency-or-retention")
+            if route == "restore" and sorted(pool)[-int(case["keep"]):] != expect_steps:
+                classes.append("restore-route-retention-override-visible-on-disk")
         has_override = ov["new_dir"] or any(ov[k] is not None for k in ("frequency", "keep", "async_"))
         if has_override:
             classes.append("with-override")
         if step is not None:
             classes.append("explicit-step")
+        if len(steps) >= 2 and len({len(str(x)) for x in steps}) >= 2:
+            classes.append("retained-steps-of-different-digit-counts")
         if snap.get("policy") is not None:
             classes.append("snapshot-has-policy")
         sample = dict(kind=kind, problem=problem["kind"], route=route, freq=case["freq"], keep=case["keep"], calls=case["calls"],
